@@ -1561,3 +1561,36 @@ for _c in _c02.M.contracts:
                     'exactly_lib.execution.full_execution.result:new_from_result_of_partial_execution',
                     'exactly_lib.execution.full_execution.result:new_skipped'):
         _c.props = tuple(sorted(set(_c.props) | {'C01'}))
+
+
+# ====================================================================================== bounded cross-check (native)
+
+@M.bounded('native fault injection')
+def _native_fault_injection(ctx):
+    """The real full_execution.execute on stub instructions / a stub actor (contracts/native_c01.py): no fault,
+    every single fault (step x instruction position x kind of failure), every post-sandbox fault combined with
+    every failing cleanup instruction, for 1..2 instructions per phase, status PASS / FAIL / SKIP, with and
+    without `exe_atc_and_skip_assertions`; the clauses of C01 (and the corollary of C03) evaluated natively on
+    the recorded calls.  Cross-checks the modular proof -- including its trusted stand-ins -- against reality."""
+    import os
+    from contracts import native_c01
+    bound = 2 if ctx.tier == 'quick' else 3
+    cases, failures = native_c01.main(bound)
+    verif = os.path.dirname(os.path.dirname(os.path.abspath(__file__)))
+    out = []
+    for faults, n, status, skip, bad, got in failures:
+        replay = ('import sys\nsys.path.insert(0, %r)\nfrom contracts import native_c01 as N\n'
+                  'from exactly_lib.execution import phase_step as S\n'
+                  'from exactly_lib.test_case.test_case_status import TestCaseStatus\n'
+                  'faults = [%s]\nrun, result = N.execute(faults, %d, TestCaseStatus.%s, %r)\n'
+                  'bad = N.check(run, result, %d, TestCaseStatus.%s, %r)\nprint(result.status, bad)\n'
+                  'sys.exit(1 if bad else 0)\n'
+                  % (verif, ', '.join('N.Fault([s for s in vars(S).values() if str(s) == %r][0], %r, %r)'
+                                      % (str(f.step), f.position, f.kind) for f in faults),
+                     n, status.name, skip, n, status.name, skip))
+        out.append({'input': '%r n=%d status=%s skip=%r' % (faults, n, status.name, skip),
+                    'expected': 'all clauses of C01', 'actual': '%s; violated: %s' % (got, bad), 'replay': replay})
+    ctx.bounded_result('exactly_lib.execution.full_execution.execution:execute',
+                       'instructions per phase <= %d; single faults and fault x failing cleanup' % bound,
+                       cases, True, out,
+                       note='act/validate-exe-input is not injectable through the public interfaces used here')
